@@ -42,6 +42,7 @@ type Contract struct {
 	Pkg        string // package path
 	Name       string // function name relative to its package
 	Trusted    bool   // assumed: external or not verifiable
+	ReturnsClosure bool // the body only builds one closure over its parameters and returns it
 	Any        []AnyVar
 	Requires   []Clause
 	Ensures    []Clause
@@ -112,7 +113,7 @@ var reLabel = regexp.MustCompile(`^([A-Za-z0-9_\-#./]+):\s+(.*)$`)
 
 var keywords = map[string]bool{"func": true, "any": true, "requires": true, "ensures": true, "modifies": true,
 	"loop": true, "trusted": true, "spec": true, "lemma": true, "assume": true, "show": true, "package": true,
-	"global": true, "ghost": true, "option": true, "pure": true, "ghostvar": true, "ufunc": true, "ghosttype": true, "at": true, "model": true, "ensures-assumed": true, "ensures-local": true, "axiom": true}
+	"global": true, "ghost": true, "option": true, "pure": true, "ghostvar": true, "ufunc": true, "ghosttype": true, "at": true, "model": true, "ensures-assumed": true, "ensures-local": true, "axiom": true, "returns-closure": true}
 
 func (db *ContractDB) errf(format string, a ...interface{}) {
 	db.Errors = append(db.Errors, fmt.Sprintf(format, a...))
@@ -257,6 +258,11 @@ func (db *ContractDB) loadFile(path, defaultPkg string) {
 			}
 		case "pure":
 			if cur != nil {
+				cur.ModNothing, cur.HasMod = true, true
+			}
+		case "returns-closure":
+			if cur != nil {
+				cur.ReturnsClosure = true
 				cur.ModNothing, cur.HasMod = true, true
 			}
 		case "option":
